@@ -380,6 +380,12 @@ elif order == "solver-first":
     cls(Forest(S=3), **kw)
     pb = DM(**dmkw)
     s = cls(pb, **kw)
+elif order == "double-then-single-precision-solver":
+    # the solver under test asks for double precision (default); another solver created afterwards asks for single
+    cls(Forest(S=3), **kw)
+    pb = DM(**dmkw)
+    s = cls(pb, **kw)
+    cls(Forest(S=3), jax_double_precision=False, **kw)
 elif order == "config-only":
     from mdpax.problems.perishable_inventory.de_moor_single_product import DeMoorSingleProductPerishableConfig as DMC
     s = cls(config=cls.Config(problem=DMC(**dmkw), **kw))
@@ -412,7 +418,7 @@ def run_precision(job, ob):
     try:
         ckdir = os.path.join(base, "ck")
         _fresh(name, "make-checkpoint", ckdir)
-        for order in ("problem-first", "solver-first", "config-only", "restore"):
+        for order in ("problem-first", "solver-first", "double-then-single-precision-solver", "config-only", "restore"):
             r, err = _fresh(name, order, ckdir)
             cex = lambda m, order=order: dict(kind="precision", solver=name, order=order)
             if r is None:
